@@ -121,6 +121,11 @@ impl CountedIndex {
     }
 
     #[inline(always)]
+    pub fn store_raw(&self, val: usize, ord: Ordering) {
+        self.val.store(val, ord)
+    }
+
+    #[inline(always)]
     pub fn load_count(&self, ord: Ordering) -> usize {
         self.load_raw(ord)
     }
@@ -148,11 +153,15 @@ impl<'a> Transaction<'a> {
         ((self.loaded_vals & self.mask) as isize, self.loaded_vals)
     }
 
-    /// Returns true if the values passed in matches the previous wrap-around of the Transaction
+    /// Returns true if the value passed in is a whole wrap-around (or more) behind
+    /// the Transaction. More than one wrap behind happens while a freshly added
+    /// stream has not caught up with its parent yet; such a stream must hold the
+    /// writers back like any other instead of being lapped.
     #[inline(always)]
     pub fn matches_previous(&self, val: usize) -> bool {
         let wrap = self.mask.wrapping_add(1);
-        rm_tag(self.loaded_vals.wrapping_sub(wrap)) == val
+        let behind = rm_tag(self.loaded_vals.wrapping_sub(val));
+        behind >= wrap && behind <= MAX_WRAP as usize
     }
 
     #[inline(always)]
